@@ -17,6 +17,18 @@ import time
 VERIF = os.path.dirname(os.path.dirname(os.path.abspath(__file__)))
 REPO = os.environ.get('VERIF_REPO', '/repo')
 LEAN_DIR = os.path.join(VERIF, 'lean')
+if os.path.realpath(REPO) != '/repo':
+    # a run against a scratch tree (VERIF_REPO, used to try patches) regenerates tables and translated sources that differ
+    # from /repo's: it works on a private copy of the Lean project (with its build output), removed when the run ends, so
+    # that such runs neither disturb /verif/lean nor each other
+    import atexit
+    import shutil
+    import tempfile
+    _private = os.path.join(tempfile.gettempdir(), 'verif-lean-%d' % os.getpid())
+    subprocess.run(['cp', '-a', LEAN_DIR, _private], check=True)
+    LEAN_DIR = _private
+    _owner = os.getpid()
+    atexit.register(lambda: os.getpid() == _owner and shutil.rmtree(_private, ignore_errors=True))
 DRIVER = os.path.join(LEAN_DIR, '.lake', 'build', 'bin', 'mido_driver')
 # evidence describes /repo itself: a run against a scratch tree (VERIF_REPO, used to try patches) writes its evidence elsewhere
 EVIDENCE_DIR = os.path.join(VERIF, 'evidence') if os.path.realpath(REPO) == '/repo' else os.path.join(VERIF, 'replays', 'scratch-evidence')
@@ -288,6 +300,10 @@ class Check:
                 self.broken.append(f'theorem {name} depends on disallowed axioms {ax[name]}')
             else:
                 self.discharged.append(name)
+        try:
+            self.check_pysem()
+        except Exception as e:
+            self.broken.append(f'operator semantics check (pysem) failed to run: {type(e).__name__}: {e}')
         hits = grep_forbidden()
         if hits:
             self.broken.append('forbidden constructs in Lean sources: ' + '; '.join(hits[:5]))
@@ -297,6 +313,49 @@ class Check:
             self.notes.append(f'leanchecker {mods}: rc={rc}')
             if rc != 0:
                 self.broken.append('leanchecker rejected ' + ' '.join(mods) + ': ' + out[-300:])
+
+    def check_pysem(self):
+        """The operator semantics the source translator relies on (MidoModel/PySem.lean) against CPython, on boundary and
+        random operands.  Run by every property that has a source tie."""
+        if not SRC_TIE.get(self.id):
+            return
+        rng = random.Random(f'pysem:{self.seed}')
+        vals = [0, 1, -1, 2, -2, 127, 128, -128, 255, 256, -256, 8191, -8192, 16383, 2 ** 31, -2 ** 31, 2 ** 63, -2 ** 63 - 1,
+                2 ** 64 + 5, -(2 ** 70) + 3]
+        vals += [rng.randint(-2 ** 40, 2 ** 40) for _ in range(60)] + [rng.randint(-300, 300) for _ in range(60)]
+        reqs, want = [], []
+
+        def py(f):
+            try:
+                return 'ok %d' % f()
+            except ValueError:
+                return 'err ValueError'
+            except IndexError:
+                return 'err IndexError'
+            except TypeError:
+                return 'err TypeError'
+        for a in vals:
+            for b in vals[:12] + [rng.choice(vals) for _ in range(6)]:
+                reqs.append(f'pyop land {a} {b}'); want.append('ok %d' % (a & b))
+                reqs.append(f'pyop lor {a} {b}'); want.append('ok %d' % (a | b))
+            for k in (0, 1, 4, 5, 7, 8, 16, 63, 64, -1):
+                reqs.append(f'pyop shl {a} {k}'); want.append(py(lambda: a << k))
+                reqs.append(f'pyop shr {a} {k}'); want.append(py(lambda: a >> k))
+                if k >= 0:
+                    reqs.append(f'pyop shlN {a} {k}'); want.append('ok %d' % (a << k))
+                    reqs.append(f'pyop shrN {a} {k}'); want.append('ok %d' % (a >> k))
+            reqs.append(f'pyop inv {a}'); want.append(str(~a))
+            reqs.append(f'pyop bitlen {a}'); want.append(str(a.bit_length()))
+        for b in (0, 1, 2, 7, 255, -1):
+            reqs.append(f'pyop pow 2 {b}'); want.append('ok %d' % (2 ** b) if b >= 0 else 'err TypeError')
+        for xs in ([], [5], [5, 6, 7]):
+            for i in (-4, -3, -1, 0, 1, 2, 3):
+                reqs.append('pyop idx %d %s' % (i, ' '.join(map(str, xs)))); want.append(py(lambda: xs[i]))
+        for n in (-2, 0, 1, 5):
+            reqs.append(f'pyop range {n}'); want.append(' '.join(map(str, range(n))))
+        got = self.driver.run(reqs)
+        self.compare('pysem (operator semantics of the source translator vs CPython)', reqs, want, got)
+        self.count('pysem_operator_cases', len(reqs))
 
     @property
     def driver(self):
